@@ -39,7 +39,10 @@ SPEC = {
                   "(induction): the receiver state - hence every digest of it - after a history equals the state after the sub-history of "
                   "the datagrams that acted, each of which was, for the state it met, authentic and fresh, a handshake packet, or in the F12 "
                   "region; a datagram that did not act leaves the state, windows included, unchanged. The table is regenerated on every run "
-                  "from the real readOutsidePackets / handleOutsideRelayPacket / handleRecvError; rows whose concretisations disagree fail the run.",
+                  "from the real readOutsidePackets / handleOutsideRelayPacket / handleRecvError; rows whose concretisations disagree fail the run. "
+                  "The component outsidebatch drives the real Interface.listenOut goroutine (its own listener and per-batch flusher closures, "
+                  "its own rxContext and hostmap cache) with receive batches mixing authentic and forged packets: a tunnel's inbound-liveness "
+                  "mark is set by a batch iff the batch held a packet that authenticated under that tunnel's key.",
     "level_note": "Trusted: Coq kernel; the generator, the overlay shim (drives the real entry points synchronously after stopping Main's "
                   "background goroutines), the state digest and the classification of digest differences into effects; that the listed "
                   "features are all the function reads is tested by >= 3 concretisations per row and by the network component, not proved. "
@@ -52,7 +55,8 @@ SPEC = {
     "corr": ["corr/Outside_corr.v"],
     "build_comp": "outside",
     "comps": [{"comp": "outside", "n_quick": 800, "n_thorough": 20000, "e2e": True},
-              {"comp": "outsidenet", "n_quick": 0, "n_thorough": 0, "e2e": True}],
+              {"comp": "outsidenet", "n_quick": 0, "n_thorough": 0, "e2e": True},
+              {"comp": "outsidebatch", "n_quick": 300, "n_thorough": 5000, "e2e": True}],
     "classify": classify,
     "trusted": ["gen/Tab_Outside.v is produced by injecting >= 3 real datagrams per abstract row into a real node (nebula.Main, e2e build) "
                 "and reading the effects off the node's state digest and output (translator by exhaustive evaluation); soundness of the "
